@@ -26,7 +26,9 @@ RULE = ("all label assignments over the per-dtype limit alphabet {1, max, "
         "(average) / {1,2,3}^3 (majority, stride) x outside value in {None, "
         "0, 255, 7.5}; ramp-filled shapes {1..5}^3; unsupported factor "
         "triples must raise NotImplementedError; one downscaler instance fed "
-        "chunks of 3 different data types in every order. One evaluation = one "
+        "chunks of 3 different data types in every order; all ordered pairs of "
+        "11 get_downscaler configurations (explicit or auto-selected method "
+        "x info type x outside value) alive together, each then used. One evaluation = one "
         "downscale call; non-trivial = some factor > 1 and the array is not "
         "constant.")
 ASSUMPTIONS = [
@@ -272,6 +274,65 @@ def _run_reuse(col):
                 "sequence": ["uint8", "uint16", "float32"]})
 
 
+def _inst_configs():
+    out = []
+    for o in (None, 0.0, 7.0):
+        out.append(("average", None, o))
+        out.append(("auto", "image", o))
+        out.append(("auto", "segmentation", o))
+    out.append(("majority", None, None))
+    out.append(("stride", None, None))
+    return out
+
+
+def _inst_make(cfg):
+    from neuroglancer_scripts.downscaling import get_downscaler
+    sel, typ, outside = cfg
+    opts = {}
+    if outside is not None:
+        opts["outside_value"] = outside
+    info = {"type": typ, "data_type": "uint8", "num_channels": 1,
+            "scales": []} if typ else None
+    ds = get_downscaler(sel, info, opts)
+    eff = sel
+    if sel == "auto":
+        eff = "average" if typ == "image" else "stride"
+    return ds, eff, (outside if eff == "average" else None)
+
+
+def _run_instance_pair(col, a, b):
+    """two downscalers obtained through get_downscaler (explicit method or
+    'auto' resolved from the info type, with options) are alive at the same
+    time; each is then used on border-overhanging arrays: the result is the
+    one of the method and outside value IT was created with"""
+    made = [_inst_make(a), _inst_make(b)]
+    for which in (0, 1, 0):
+        ds, eff, outside = made[which]
+        for dtype in ("uint8", "uint16"):
+            hi = ex.INT_RANGE[dtype][1]
+            vals = [Fraction(v) for v in (1, hi, 3, 0, 2, hi - 1, 5, 9, 4)]
+            before = col.r["violation_count"]
+            _evaluate(col, eff, dtype, (1, 3, 3), (2, 2, 1), outside,
+                      [vals], ds)
+            if col.r["violation_count"] != before:
+                col.violation(
+                    "C07/instances/wrong-result-from-get_downscaler-with-"
+                    "other-instances-alive/%s" % eff,
+                    {"kind": "instances", "configs": [list(a), list(b)],
+                     "used": which, "dtype": dtype},
+                    "result of %s with outside value %r" % (eff, outside),
+                    "differs (see the accompanying signature)")
+
+
+def _run_instances(col):
+    cfgs = _inst_configs()
+    for a in cfgs:
+        for b in cfgs:
+            _run_instance_pair(col, a, b)
+    col.sample({"kind": "instances",
+                "configs": [["auto", "image", 7.0], ["average", None, None]]})
+
+
 def units(tier):
     u = []
     for dtype in DTYPES:
@@ -290,6 +351,7 @@ def units(tier):
         u.append({"kind": "ramp", "dtype": dtype})
     u.append({"kind": "reject"})
     u.append({"kind": "reuse"})
+    u.append({"kind": "instances"})
     return u
 
 
@@ -357,6 +419,8 @@ def run_unit(u):
         _run_ramp(col, u["dtype"])
     elif u["kind"] == "reuse":
         _run_reuse(col)
+    elif u["kind"] == "instances":
+        _run_instances(col)
     else:
         for method, fs in BAD_FACTORS.items():
             for f in fs:
@@ -380,6 +444,10 @@ def replay(case):
     col = Collector()
     if case.get("kind") == "reject":
         _eval_reject(col, case["method"], case["factors"])
+        return col.records()
+    if case.get("kind") == "instances":
+        _run_instance_pair(col, tuple(case["configs"][0]),
+                           tuple(case["configs"][1]))
         return col.records()
     if case.get("kind") == "reuse":
         _run_reuse(col)
